@@ -22,6 +22,8 @@ const (
 
 type stagedProp interface {
 	CommitStaged()
+	RollbackStaged()
+	ConfirmCommitted()
 }
 
 type StagedConfigProp interface {
@@ -56,10 +58,11 @@ func setPropsFromMapRecursive(val reflect.Value, updates map[string]any) (staged
 				// If the value is a map, it's a nested update
 				if nestedUpdates, ok := value.(map[string]any); ok {
 					nestedStaged, err := setPropsFromMapRecursive(fieldVal.Addr(), nestedUpdates)
-					if err != nil {
-						return nil, err
-					}
 					stagedProps = append(stagedProps, nestedStaged...)
+					if err != nil {
+						// Hand back what has been staged so far so the caller can roll it back
+						return stagedProps, err
+					}
 					break
 				}
 
@@ -69,11 +72,11 @@ func setPropsFromMapRecursive(val reflect.Value, updates map[string]any) (staged
 					if prop, ok := fieldAddr.Interface().(StagedConfigProp); ok {
 						valueBytes, err := json.Marshal(value)
 						if err != nil {
-							return nil, err
+							return stagedProps, err
 						}
 
 						if err := prop.UnmarshalJSONStaged(valueBytes); err != nil {
-							return nil, err
+							return stagedProps, err
 						}
 
 						stagedProps = append(stagedProps, prop)
@@ -103,10 +106,19 @@ func UpdatePartialFromConfig(cfg *Config, updates map[string]any) (UpdateStatus,
 		return UpdateStatusFailed, nil
 	}
 
+	// A rejected or failed update must leave no trace: nothing staged, nothing committed,
+	// no subscriber notified, no restart flagged and the config file untouched.
+	rollback := func(stagedProps []stagedProp) {
+		for _, prop := range stagedProps {
+			prop.RollbackStaged()
+		}
+	}
+
 	slog.Debug("Setting properties from JSON map...", "updates", updates)
 	stagedProps, err := setPropsFromMapRecursive(reflect.ValueOf(cfg), updates)
 	if err != nil {
 		slog.Error("Failed to set properties from map", "error", err)
+		rollback(stagedProps)
 		return UpdateStatusFailed, fmt.Errorf("%w: %v", ErrUpdateFailed, err)
 	}
 
@@ -118,12 +130,19 @@ func UpdatePartialFromConfig(cfg *Config, updates map[string]any) (UpdateStatus,
 
 	if err := cfg.verify(); err != nil {
 		slog.Error("Updated config failed verification", "error", err)
+		rollback(stagedProps)
 		return UpdateStatusFailed, fmt.Errorf("%w: %v", ErrUpdateFailed, err)
 	}
 
 	if err := cfg.persist(); err != nil {
 		slog.Error("Failed to persist updated config", "error", err)
+		rollback(stagedProps)
 		return UpdateStatusFailed, fmt.Errorf("%w: %v", ErrUpdateFailed, err)
+	}
+
+	// The update is accepted and on disk: only now components are told about it.
+	for _, prop := range stagedProps {
+		prop.ConfirmCommitted()
 	}
 
 	status := UpdateStatusSuccess
